@@ -17,27 +17,33 @@ TextVar(mx) == << <<>>, <<65>>, Mat([i \in 1..(IF mx < 8 THEN mx ELSE 8) |-> 48 
 FStrVar(w) == << <<>>, <<65>>, Mat([i \in 1..w |-> 48 + (i % 10)]), (IF w >= 2 THEN <<126, 125>> ELSE <<126>>), Mat([i \in 1..(w \div 2) |-> 97 + (i % 26)]) >>
 NVariants == 5
 
+\* list lengths: 0..MaxList for the ordinary variants; the long variants sit at the boundaries of narrow index arithmetic
+\* (127 / 128 signed byte, 255 the largest one-byte count, 256 where the count field is wider)
+IsListy(f) == f.k \in {"ulist", "optulist", "list", "items"}
+NLong == 4
+Count(f, var) == IF var <= NVariants THEN (var - 1) % (MaxList + 1)
+                 ELSE LET wide == f.k = "items" \/ f.cw > 1 IN <<127, 128, 255, IF wide THEN 256 ELSE 254>>[var - NVariants]
 RECURSIVE ValueOf(_, _, _)
 RECURSIVE Fix(_, _)
 \* value of layout L where the field at (flat) position pick gets variant var, all others variant base
 Variant(f, var) == CASE f.k = "u" -> UVar(f.w)[var] [] f.k = "raw" -> UVar(f.w)[var] [] f.k = "bcd" -> BcdVar[var]
                      [] f.k = "lstr" -> StrVar[var] [] f.k = "rest" -> RestVar[var]
                      [] f.k = "fstr" -> FStrVar(f.w)[var] [] f.k = "trest" -> TextVar(f.mx)[var] [] f.k = "reclen" -> UVar(f.w)[1]
-                     [] f.k = "items" -> LET c == (var - 1) % (MaxList + 1) IN
+                     [] f.k = "items" -> LET c == Count(f, var) IN
                                          Mat([i \in 1..(IF c < f.min THEN f.min ELSE c) |-> ValueOf(f.item, 0, ((var + i) % NVariants) + 1)])
-                     [] f.k \in {"ulist", "optulist"} -> Mat([i \in 1..((var - 1) % (MaxList + 1)) |-> UVar(f.w)[((var + i) % NVariants) + 1]])
-                     [] f.k = "list" -> Mat([i \in 1..((var - 1) % (MaxList + 1)) |-> ValueOf(f.item, 0, ((var + i) % NVariants) + 1)])
-ValueOf(L, pick, var) ==
+                     [] f.k \in {"ulist", "optulist"} -> Mat([i \in 1..Count(f, var) |-> UVar(f.w)[((var + i) % NVariants) + 1]])
+                     [] f.k = "list" -> Mat([i \in 1..Count(f, var) |-> ValueOf(f.item, 0, ((var + i) % NVariants) + 1)])
+ValueOf(L, pick, var) == TLCEval(
     [n \in {L[i].n : i \in 1..Len(L)} |->
-        LET i == CHOOSE j \in 1..Len(L) : L[j].n = n IN Variant(L[i], IF pick = 0 \/ pick = i THEN var ELSE 1)]
+        LET i == CHOOSE j \in 1..Len(L) : L[j].n = n IN Variant(L[i], IF pick = 0 \/ pick = i THEN var ELSE 1)])
 \* derived fields (separate counts, record lengths) are made consistent with what they describe
 Fix(L, v) ==
     LET fld(n) == CHOOSE i \in 1..Len(L) : L[i].n = n
-        v1 == [n \in DOMAIN v |-> IF L[fld(n)].k \in {"items", "list"}
-                                   THEN Mat([j \in 1..Len(v[n]) |-> Fix(L[fld(n)].item, v[n][j])]) ELSE v[n]]
-        v2 == [n \in DOMAIN v1 |-> IF \E i \in 1..Len(L) : L[i].k = "items" /\ L[i].cn = n
-                                    THEN UBytes(Len(v1[L[CHOOSE i \in 1..Len(L) : L[i].k = "items" /\ L[i].cn = n].n]), L[fld(n)].w) ELSE v1[n]]
-    IN [n \in DOMAIN v2 |-> IF L[fld(n)].k = "reclen" THEN UBytes(Len(Enc(SubSeq(L, fld(n) + 1, Len(L)), v2)), L[fld(n)].w) ELSE v2[n]]
+        v1 == TLCEval([n \in DOMAIN v |-> IF L[fld(n)].k \in {"items", "list"}
+                                   THEN Mat([j \in 1..Len(v[n]) |-> Fix(L[fld(n)].item, v[n][j])]) ELSE v[n]])
+        v2 == TLCEval([n \in DOMAIN v1 |-> IF \E i \in 1..Len(L) : L[i].k = "items" /\ L[i].cn = n
+                                    THEN UBytes(Len(v1[L[CHOOSE i \in 1..Len(L) : L[i].k = "items" /\ L[i].cn = n].n]), L[fld(n)].w) ELSE v1[n]])
+    IN TLCEval([n \in DOMAIN v2 |-> IF L[fld(n)].k = "reclen" THEN UBytes(Len(Enc(SubSeq(L, fld(n) + 1, Len(L)), v2)), L[fld(n)].w) ELSE v2[n]])
 
 \* ---- terminal parameter sets: every table id alone, reserved / vendor ids, neighbours in pairs, everything at once
 ParamContentOf(id) == LET w == ParamWidth(id) IN
@@ -53,7 +59,8 @@ VARIABLES t, pick, var
 Init == \/ t \in Types /\ pick = 0 /\ var = 1
         \/ t = "P0x8103" /\ pick \in 1..Cardinality(ParamSets) /\ var = 0
 Next == /\ pick = 0 /\ var = 1 /\ t # "P0x8103"
-        /\ \E p \in 0..Len(LayoutOf[t]), v \in 1..NVariants : (p > 0 \/ v > 1) /\ pick' = p /\ var' = v
+        /\ \E p \in 0..Len(LayoutOf[t]), v \in 1..(NVariants + NLong) :
+              /\ (p > 0 \/ v > 1) /\ (v > NVariants => p > 0 /\ IsListy(LayoutOf[t][p])) /\ pick' = p /\ var' = v
         /\ UNCHANGED t
 
 IsParams == t = "P0x8103"
